@@ -1,6 +1,7 @@
 package props
 
 import (
+	"bytes"
 	"context"
 	"encoding/json"
 	"fmt"
@@ -101,7 +102,8 @@ func genC08(rt *rapid.T) c08Case {
 			m.Kind = ckPattern
 		}
 		if c.API == "wsjson" {
-			m.Kind = -1
+			// a number of Size digits, or a small complete value followed by white space up to Size
+			m.Kind = rapid.SampledFrom([]int{-1, -2}).Draw(rt, "jsonKind")
 			if m.Size == 0 {
 				m.Size = 1
 			}
@@ -125,7 +127,15 @@ func genC08(rt *rapid.T) c08Case {
 }
 
 func c08Payload(m c08Msg, i int) []byte {
-	if m.Kind == -1 {
+	if m.Kind == -2 && m.Size >= 7 {
+		b := bytes.Repeat([]byte{' '}, m.Size)
+		copy(b, `{"a":1}`)
+		for j := 7; j < len(b); j += 61 {
+			b[j] = '\n'
+		}
+		return b
+	}
+	if m.Kind == -1 || m.Kind == -2 {
 		b := make([]byte, m.Size)
 		for j := range b {
 			b[j] = byte('1' + (j+i)%9)
@@ -349,7 +359,12 @@ func runC08(t fataler, c c08Case) (string, c08Result) {
 				err := wsjson.Read(ctx, conn, &v)
 				g.data, g.n, g.err = []byte(v), len(v), err
 				g.eof = err == nil
-				cmp(&g, v, want, 0)
+				if tw := bytes.TrimSpace(want); len(tw) != len(want) && err == nil && bytes.Equal(v, tw) {
+					// a value followed by white space: the decoded value is the document without the padding
+					g.data, g.n = want, len(want)
+				} else {
+					cmp(&g, v, want, 0)
+				}
 			}
 			return g
 		}
